@@ -87,7 +87,9 @@ def handle (op : String) (args : List String) : Option String :=
   | "c11.encvarint", [n] => some <| match nat? n with
       | some n => hex (encodeVarint n) | none => "bad-arg"
   | "c11.decvarint", [h] => some <| match bytes? h with
-      | some d => let r := decodeVarint d; s!"{r.1} {hex r.2}" | none => "bad-arg"
+      | some d => (match decodeVarint d with
+          | .ok (n, r) => s!"ok {n} {hex r}" | .error e => s!"err {e}")
+      | none => "bad-arg"
   | "c11.readvarint", [h] => some <| match bytes? h with
       | some d => (match readVarint d with
           | .ok (n, r) => s!"ok {n} {hex r}" | .error e => s!"err {e}")
